@@ -52,6 +52,7 @@ type Plan struct {
 	AgeHours  int         `json:"age_hours,omitempty"` // simulated time that passes between the earlier Puts and the target Put
 	Target    PutStep     `json:"target"`
 	Via       string      `json:"via"` // bytes | reader
+	NoVerify  bool        `json:"no_verify,omitempty"` // the reader goes in through PutNoVerify
 	Chunk     int         `json:"chunk"`
 	All       bool        `json:"all,omitempty"` // enumerate the whole fault space of this shape instead of the single Fault
 	Fault     FaultSpec   `json:"fault"`
@@ -89,6 +90,7 @@ func genPlan(t *rapid.T, tier string) any {
 	p.AgeHours = rapid.SampledFrom([]int{0, 0, 0, 2, 25, 4 * 24, 5*24 + 2, 6 * 24, 400 * 24}).Draw(t, "agehours")
 	p.Via = rapid.SampledFrom([]string{"bytes", "reader", "reader"}).Draw(t, "via")
 	p.Chunk = rapid.SampledFrom([]int{1, 100, 4096, 1 << 20}).Draw(t, "chunk")
+	p.NoVerify = rapid.IntRange(0, 3).Draw(t, "noverify") == 0
 	if tier == "thorough" && rapid.IntRange(0, 9).Draw(t, "all") == 0 {
 		p.All = true
 	}
@@ -222,7 +224,9 @@ func (e *env) runPut(a attempt) (err error, halted bool, finished bool) {
 			return
 		}
 		id := cachekit.ActionID(p.Target.ID)
-		if a.reader != nil {
+		if a.reader != nil && p.NoVerify {
+			_, _, err = c.PutNoVerify(id, a.reader)
+		} else if a.reader != nil {
 			_, _, err = c.Put(id, a.reader)
 		} else {
 			err = c.PutBytes(id, e.contents[p.Target.Content])
@@ -532,7 +536,7 @@ func run(t *testing.T, plan any, keep bool) *simcheck.Outcome {
 var harness = &simcheck.Harness{
 	Property: "C12",
 	Level:    "fault_enumeration",
-	Rule: "a scenario shape (0-3 prior Puts, 0 hours to 400 days of simulated time between them and the target Put, target id/content, optional pre-damage of the target's output file (same size / shorter / longer / shorter with wrong bytes) or an output that was trimmed away while index entries still name it, PutBytes or a chunking ReadSeeker with Len, optionally a healthy companion process storing the same content) is drawn by rapid; a fault-free dry run " +
+	Rule: "a scenario shape (0-3 prior Puts, 0 hours to 400 days of simulated time between them and the target Put, target id/content, optional pre-damage of the target's output file (same size / shorter / longer / shorter with wrong bytes) or an output that was trimmed away while index entries still name it, PutBytes, Put or PutNoVerify of a chunking ReadSeeker with Len, optionally a healthy companion process storing the same content) is drawn by rapid; a fault-free dry run " +
 		"counts the N file operations and M reader calls of the target Put; then one fault is injected (operation k fails / writes short and fails / process halts before / after / in the middle of it; " +
 		"or the reader fails to seek, fails mid-read, ends early, flips a byte in one pass, grows in one pass, returns data with EOF), or - thorough, a tenth of the shapes - the whole " +
 		"(operation x action) and reader fault space of the shape is executed to completion; every attempt starts from the same rewound disk state; thorough adds a concurrent reader process; " +
